@@ -186,7 +186,12 @@ func oracleServe(c serveCase, o serveObs) []core.Failure {
 				child = "/" + name
 			}
 			if h, pathOnly := specHidden(c.cwd, c.hide, child); h {
-				if pathOnly {
+				// residual hypothesis of the theorem listing_omits_hidden: the listed directory is the
+				// file the request itself mapped to (not a directory reached through an index name)
+				viaIndex := len(m.opened) > 0 && resolve(c.cwd, m.opened[0]) != dir
+				if pathOnly && viaIndex {
+					fs = append(fs, fail("listing-via-directory-index-shows-entry-hidden-by-path-rule", "request path %q: listing of %q (a directory used as index file) shows %q although %q is hidden by a path rule (hide %q)", c.path, dir, n, child, c.hide))
+				} else if pathOnly {
 					fs = append(fs, fail("listing-shows-entry-hidden-by-path-rule", "request path %q: listing of %q shows %q although %q is hidden by a path rule (hide %q)", c.path, dir, n, child, c.hide))
 				} else {
 					fs = append(fs, fail("listing-shows-hidden-entry", "request path %q: listing of %q shows hidden entry %q (hide %q)", c.path, dir, n, c.hide))
@@ -362,36 +367,6 @@ func oracleMatch(c matchCase, o matchObs) []core.Failure {
 	if !under(R, P) {
 		fs = append(fs, fail("matcher-result-outside-root", "request path %q tries %v matched %q outside root %q", c.path, c.tries, P, R))
 	}
-	// globs are never expanded from the request: when the literal parts of every try_files
-	// entry are glob-free, the match is exactly one of the lexically joined candidates
-	literal := true
-	var want []string
-	for _, t := range c.tries {
-		if strings.ContainsAny(t.pre+t.suf, "*?[\\") {
-			literal = false
-		}
-		s := t.pre + t.suf
-		if t.use {
-			s = t.pre + c.path + t.suf
-		}
-		want = append(want, resolve(c.cwd, path.Clean(rootCfg)+"/"+path.Clean("/"+path.Clean(s))))
-	}
-	if literal {
-		found := false
-		for _, w := range want {
-			if w == P {
-				found = true
-			}
-		}
-		if !found {
-			class := "matcher-glob-from-request"
-			if strings.Contains(c.path, "\\") {
-				// globSafeRepl escapes * [ ? but not the escape character itself
-				class = "matcher-glob-from-request-via-backslash"
-			}
-			fs = append(fs, fail(class, "request path %q tries %v matched %q, not one of the literal candidates %q", c.path, c.tries, P, want))
-		}
-	}
 	if !c.fallback {
 		n, _, err := o.fs.lookup(o.abs)
 		switch {
@@ -418,6 +393,11 @@ func matchTags(c matchCase, o matchObs) []string {
 	if c.fallback {
 		t = append(t, "matchfile:fallback-policy")
 	}
+	if o.matched && unintendedGlob(c, o) {
+		// which file inside the root a pattern selects is not part of C07 (containment and
+		// hide rules are); recorded for the histogram only
+		t = append(t, "matchfile:glob-syntax-from-request")
+	}
 	if o.matched && o.typ == "directory" {
 		t = append(t, "matchfile:directory")
 	}
@@ -425,4 +405,28 @@ func matchTags(c matchCase, o matchObs) []string {
 		t = append(t, "trivial")
 	}
 	return t
+}
+
+// unintendedGlob: the literal parts of every try_files entry are glob-free, yet the match is
+// none of the lexically joined candidates (the request contributed live glob syntax, e.g. a
+// backslash that globSafeRepl does not escape).
+func unintendedGlob(c matchCase, o matchObs) bool {
+	rootCfg := c.root
+	if rootCfg == "" {
+		rootCfg = "."
+	}
+	P := resolve(c.cwd, o.abs)
+	for _, t := range c.tries {
+		if strings.ContainsAny(t.pre+t.suf, "*?[\\") {
+			return false
+		}
+		s := t.pre + t.suf
+		if t.use {
+			s = t.pre + c.path + t.suf
+		}
+		if resolve(c.cwd, path.Clean(rootCfg)+"/"+path.Clean("/"+path.Clean(s))) == P {
+			return false
+		}
+	}
+	return true
 }
